@@ -128,7 +128,8 @@ def main(argv):
             seen.add(v["sig"])
             mod = runner.family(v["family"])
             plan = mod.plans_for(v["seed"], tier)[v["idx"]]
-            small, ok = runner.shrink(plan, prop, v["sig"], budget=150)
+            # (VERIF_NO_SHRINK: the sensitivity self-test only needs the verdict, not a minimised replay)
+            small, ok = (plan, False) if os.environ.get("VERIF_NO_SHRINK") else runner.shrink(plan, prop, v["sig"], budget=150)
             res = runner.run_plan_dict(small)
             path = runner.write_replay(prop, v, small, ok, res)
             replay_paths.append(path)
